@@ -32,6 +32,14 @@ def SessWF (s : Sess) : Prop := s.scr.WF ∧ (s.clients.map (·.id)).Nodup
 
 def SessInv (v : Variant) (s : Sess) : Prop := SessWF s ∧ ∀ c ∈ s.clients, ClientInv v s.scr c
 
+/-- no CopyRect is scheduled for the client (histories without rfbDoCopyRect / rfbScheduleCopyRect:
+`Op` has no such operation; CopyRect scheduling is covered by `copy_never_drags_cursor` and the
+correspondence run, the general convergence with CopyRect by property C02) -/
+def NoCopy (scr : Screen) (c : Client) : Prop :=
+  ∀ x y, x < scr.w → y < scr.h → c.copy.mem scr.w x y = false
+
+def SessNoCopy (s : Sess) : Prop := ∀ c ∈ s.clients, NoCopy s.scr c
+
 /-- two cursors that paint the same: same geometry, mask, alpha data and pixels -/
 def SameLook (v : Variant) (f : Format) (bpp : Nat) : Option Cursor → Option Cursor → Prop
   | none, none => True
@@ -238,6 +246,29 @@ theorem picUpdate_get {W H : Nat} {upd : Rgn} {tr : Px → Px} {fb pic : Array P
   · rw [Array.getElem?_eq_getElem (by rw [hfb]; exact hlt)]; rfl
   · rw [Array.getElem?_eq_getElem (by rw [hp]; exact hlt)]; rfl
 
+theorem picCopy_size (W H : Nat) (rc : Rgn) (dx dy : Int) (pic : Array Px) : (picCopy W H rc dx dy pic).size = W * H := by
+  simp [picCopy]
+
+theorem picCopy_get_out {W H : Nat} {rc : Rgn} {dx dy : Int} {pic : Array Px} {x y : Nat} (hx : x < W) (hy : y < H)
+    (hp : pic.size = W * H) (hrc : rc.mem W x y = false) :
+    (picCopy W H rc dx dy pic)[y * W + x]? = pic[y * W + x]? := by
+  have hlt : y * W + x < W * H := by rw [Nat.mul_comm W H]; exact lin_lt hy hx
+  unfold picCopy
+  rw [Array.getElem?_ofFn]
+  simp only [hlt, dite_true, lin_mod W y x hx, lin_div W y x hx, hrc, Bool.false_eq_true, if_false]
+  rw [Array.getElem?_eq_getElem (by rw [hp]; exact hlt)]; rfl
+
+/-- without a scheduled copy the region arithmetic of rfbSendFramebufferUpdate reduces to
+`modified ∩ requested` -/
+theorem noCopy_mems {s : Sess} {c : Client} (hn : NoCopy s.scr c) {x y : Nat} (hx : x < s.scr.w) (hy : y < s.scr.h) :
+    (copyLeft s c).mem s.scr.w x y = false ∧ (updCopyRegion s c).mem s.scr.w x y = false ∧
+    (upd0 s c).mem s.scr.w x y = (c.modified.mem s.scr.w x y && c.requested.mem s.scr.w x y) := by
+  have h1 : (copyLeft s c).mem s.scr.w x y = false := by
+    unfold copyLeft; rw [Rgn.mem_sub _ _ hx hy, hn x y hx hy]; rfl
+  refine ⟨h1, ?_, ?_⟩
+  · unfold updCopyRegion; rw [Rgn.mem_and _ _ hx hy, Rgn.mem_and _ _ hx hy, h1]; rfl
+  · unfold upd0; rw [Rgn.mem_and _ _ hx hy, Rgn.mem_or _ _ hx hy, h1]; simp
+
 /-- moving only the client's `cursorX/Y` -/
 def Client.at (c : Client) (x y : Nat) : Client := { c with curX := x, curY := y }
 
@@ -256,7 +287,8 @@ theorem expectedPx_soft_show {v : Variant} {scr scr2 : Screen} {c : Client} {ux 
     simp only [hr, Option.bind_some]
 
 theorem clientAfter_inv {v : Variant} {s : Sess} {c : Client} {scr2 scr3 : Screen} {m : Option (List UInt8)}
-    (hs : s.scr.WF) (hci : ClientInv v s.scr c) (hb : bracket v s c = some (scr2, scr3, m)) :
+    (hs : s.scr.WF) (hci : ClientInv v s.scr c) (hn : NoCopy s.scr c)
+    (hb : bracket v s c = some (scr2, scr3, m)) :
     ClientInv v scr3 (clientAfter s c scr2.fb) := by
   obtain ⟨hfb3, hw3, hh3, hbpp3, hfmt3, _, _⟩ := bracket_restores hs hb
   obtain ⟨hwf3, hlook⟩ := bracket_look hs hb
@@ -278,9 +310,14 @@ theorem clientAfter_inv {v : Variant} {s : Sess} {c : Client} {scr2 scr3 : Scree
   have hexp : expectedPx v scr3 (clientAfter s c scr2.fb) x y =
       expectedPx v s.scr (c.at (updCurX s c) (updCurY s c)) x y :=
     expectedPx_congr (by rw [hfb3]) hw3 hh3 hfmt3 hbpp3 hlook rfl rfl rfl
-  show (Rgn.sub s.scr.w s.scr.h c.modified (Rgn.and s.scr.w s.scr.h c.modified c.requested)).mem s.scr.w x y = true ∨
-    (picUpdate s.scr.w s.scr.h (updRegion s c) (transPx s.scr.fmt c.tfmt) scr2.fb c.pic)[y * s.scr.w + x]? = _
-  rw [hexp, picUpdate_get hx hy hfb2sz hpsz, Rgn.mem_sub _ _ hx hy, Rgn.mem_and _ _ hx hy]
+  obtain ⟨hcl0, huc0, hu0⟩ := noCopy_mems hn hx hy
+  show (Rgn.sub s.scr.w s.scr.h
+        (Rgn.sub s.scr.w s.scr.h (Rgn.or s.scr.w s.scr.h c.modified (copyLeft s c))
+          (Rgn.sub s.scr.w s.scr.h (upd0 s c) (updCopyRegion s c))) (updCopyRegion s c)).mem s.scr.w x y = true ∨
+    (picUpdate s.scr.w s.scr.h (updRegion s c) (transPx s.scr.fmt c.tfmt) scr2.fb
+      (picCopy s.scr.w s.scr.h (updCopyRegion s c) c.copyDX c.copyDY c.pic))[y * s.scr.w + x]? = _
+  rw [hexp, picUpdate_get hx hy hfb2sz (picCopy_size _ _ _ _ _ _), picCopy_get_out hx hy hpsz huc0,
+    Rgn.mem_sub _ _ hx hy, Rgn.mem_sub _ _ hx hy, Rgn.mem_or _ _ hx hy, Rgn.mem_sub _ _ hx hy, hcl0, huc0, hu0]
   by_cases hu : (updRegion s c).mem s.scr.w x y = true
   · right
     rw [if_pos hu]
@@ -296,7 +333,7 @@ theorem clientAfter_inv {v : Variant} {s : Sess} {c : Client} {scr2 scr3 : Scree
     | true =>
       cases hreq : c.requested.mem s.scr.w x y with
       | true => exact absurd (updRegion_covers_modified hx hy hmod hreq) hu
-      | false => left; simp
+      | false => left; simp [hmod, hreq]
     | false =>
       right
       rcases hpix x y hx hy with h | h
@@ -347,19 +384,36 @@ theorem ids_map_replace (l : List Client) (cid : Nat) (c' : Client) (hc : c'.id 
 theorem sendUpdate_wf {v : Variant} {s s' : Sess} {c : Client} {o : Option UpdObs} (hs : SessWF s)
     (h : sendUpdate v s c = some (s', o)) : SessWF s' ∧ s'.scr.fb = s.scr.fb := by
   refine ⟨?_, sendUpdate_fb hs.1 h⟩
-  rcases sendUpdate_cases h with ⟨_, rfl, _⟩ | ⟨_, scr2, scr3, m, obs, hb, hscr, _, _, _, _, _, _, _, _, hcl⟩
+  rcases sendUpdate_cases h with ⟨_, rfl, _⟩ | ⟨_, _, _, rfl⟩ |
+    ⟨_, scr2, scr3, m, obs, hb, hscr, _, _, _, _, _, _, _, _, _, hcl⟩
   · exact hs
+  · refine ⟨hs.1, ?_⟩
+    have e := ids_map_replace s.clients c.id { c with copy := copyLeft s c } rfl
+    exact e ▸ hs.2
   · refine ⟨by rw [hscr]; exact (bracket_look hs.1 hb).1, ?_⟩
     rw [hcl]
     split
     · exact List.Nodup.sublist (List.Sublist.map _ List.filter_sublist) hs.2
     · rw [ids_map_replace s.clients c.id (clientAfter s c scr2.fb) rfl]; exact hs.2
 
+/-- changing only `copyRegion` does not touch the picture invariant -/
+theorem ClientInv.copy_irrelevant {v : Variant} {scr : Screen} {c : Client} (h : ClientInv v scr c) (r : Rgn) :
+    ClientInv v scr { c with copy := r } := h
+
 theorem sendUpdate_inv {v : Variant} {s s' : Sess} {c : Client} {o : Option UpdObs} (hi : SessInv v s)
-    (hc : c ∈ s.clients) (h : sendUpdate v s c = some (s', o)) : SessInv v s' := by
+    (hn : SessNoCopy s) (hc : c ∈ s.clients) (h : sendUpdate v s c = some (s', o)) : SessInv v s' := by
   refine ⟨(sendUpdate_wf hi.1 h).1, ?_⟩
-  rcases sendUpdate_cases h with ⟨_, rfl, _⟩ | ⟨_, scr2, scr3, m, obs, hb, hscr, _, _, _, _, _, _, _, _, hcl⟩
+  rcases sendUpdate_cases h with ⟨_, rfl, _⟩ | ⟨_, _, _, rfl⟩ |
+    ⟨_, scr2, scr3, m, obs, hb, hscr, _, _, _, _, _, _, _, _, _, hcl⟩
   · exact hi.2
+  · intro d' hd'
+    obtain ⟨d, hd, rfl⟩ := List.mem_map.mp hd'
+    by_cases hid : d.id = c.id
+    · simp only [hid, beq_self_eq_true, if_true]
+      exact (hi.2 c hc).copy_irrelevant _
+    · have : (d.id == c.id) = false := by simp [hid]
+      simp only [this, Bool.false_eq_true, if_false]
+      exact hi.2 d hd
   · intro d' hd'
     rw [hscr]
     rw [hcl] at hd'
@@ -368,10 +422,42 @@ theorem sendUpdate_inv {v : Variant} {s s' : Sess} {c : Client} {o : Option UpdO
     · obtain ⟨d, hd, rfl⟩ := List.mem_map.mp hd'
       by_cases hid : d.id = c.id
       · simp only [hid, beq_self_eq_true, if_true]
-        exact clientAfter_inv hi.1.1 (hi.2 c hc) hb
+        exact clientAfter_inv hi.1.1 (hi.2 c hc) (hn c hc) hb
       · have : (d.id == c.id) = false := by simp [hid]
         simp only [this, Bool.false_eq_true, if_false]
         exact bystander_inv hi.1.1 (hi.2 d hd) hb
+
+theorem sendUpdate_nocopy {v : Variant} {s s' : Sess} {c : Client} {o : Option UpdObs} (hs : s.scr.WF)
+    (hn : SessNoCopy s) (hc : c ∈ s.clients) (h : sendUpdate v s c = some (s', o)) : SessNoCopy s' := by
+  rcases sendUpdate_cases h with ⟨_, rfl, _⟩ | ⟨_, _, _, rfl⟩ |
+    ⟨_, scr2, scr3, m, obs, hb, hscr, _, _, _, _, _, _, _, _, _, hcl⟩
+  · exact hn
+  · intro d' hd'
+    obtain ⟨d, hd, rfl⟩ := List.mem_map.mp hd'
+    by_cases hid : d.id = c.id
+    · simp only [hid, beq_self_eq_true, if_true]
+      intro x y hx hy
+      exact (noCopy_mems (hn c hc) hx hy).1
+    · have : (d.id == c.id) = false := by simp [hid]
+      simp only [this, Bool.false_eq_true, if_false]
+      exact hn d hd
+  · obtain ⟨_, hw3, hh3, _⟩ := bracket_restores hs hb
+    intro d' hd'
+    rw [hscr]
+    rw [hcl] at hd'
+    have keep : ∀ d, NoCopy s.scr d → NoCopy scr3 d := by
+      intro d hd x y hx hy; rw [hw3] at hx ⊢; rw [hh3] at hy; exact hd x y hx hy
+    split at hd'
+    · exact keep _ (hn d' (List.mem_filter.mp hd').1)
+    · obtain ⟨d, hd, rfl⟩ := List.mem_map.mp hd'
+      by_cases hid : d.id = c.id
+      · simp only [hid, beq_self_eq_true, if_true]
+        intro x y hx hy
+        rw [hw3] at hx ⊢; rw [hh3] at hy
+        exact Rgn.mem_empty hx hy
+      · have : (d.id == c.id) = false := by simp [hid]
+        simp only [this, Bool.false_eq_true, if_false]
+        exact keep _ (hn d hd)
 
 /-- `s'` is reached from `s` by updates of clients of the respective current state -/
 inductive Steps (v : Variant) : Sess → Sess → Prop where
@@ -426,10 +512,11 @@ theorem steps_wf {v : Variant} {s s' : Sess} (h : Steps v s s') (hs : SessWF s) 
     obtain ⟨h3, h4⟩ := ih h1
     exact ⟨h3, by rw [h4, h2]⟩
 
-theorem steps_inv {v : Variant} {s s' : Sess} (h : Steps v s s') (hs : SessInv v s) : SessInv v s' := by
+theorem steps_inv {v : Variant} {s s' : Sess} (h : Steps v s s') (hs : SessInv v s) (hn : SessNoCopy s) :
+    SessInv v s' ∧ SessNoCopy s' := by
   induction h with
-  | refl s => exact hs
-  | head c o hc h _ ih => exact ih (sendUpdate_inv hs hc h)
+  | refl s => exact ⟨hs, hn⟩
+  | head c o hc h _ ih => exact ih (sendUpdate_inv hs hn hc h) (sendUpdate_nocopy hs.1.1 hn hc h)
 
 /-- one event-loop round: the framebuffer is untouched, the session stays well-formed -/
 theorem pump_fb {v : Variant} {s s' : Sess} {obs : List UpdObs} (hs : SessWF s)
@@ -437,9 +524,9 @@ theorem pump_fb {v : Variant} {s s' : Sess} {obs : List UpdObs} (hs : SessWF s)
   let ⟨h1, h2⟩ := steps_wf (pump_steps h) hs
   ⟨h2, h1⟩
 
-theorem pump_inv {v : Variant} {s s' : Sess} {obs : List UpdObs} (hs : SessInv v s)
-    (h : pump v s = some (s', obs)) : SessInv v s' :=
-  steps_inv (pump_steps h) hs
+theorem pump_inv {v : Variant} {s s' : Sess} {obs : List UpdObs} (hs : SessInv v s) (hn : SessNoCopy s)
+    (h : pump v s = some (s', obs)) : SessInv v s' ∧ SessNoCopy s' :=
+  steps_inv (pump_steps h) hs hn
 
 /-! ### the other operations preserve the invariant -/
 
@@ -466,23 +553,6 @@ theorem nodup_map_clients {l : List Client} (f : Client → Client) (hf : ∀ c,
   have : (l.map f).map (fun c : Client => c.id) = l.map (fun c : Client => c.id) := by
     rw [List.map_map]; apply List.map_congr_left; intro c _; exact hf c
   rw [this]; exact h
-
-theorem newClient_inv {v : Variant} {s : Sess} {id : Nat} {k : ClientKind} {t : Option (Format × Nat)}
-    (hi : SessInv v s)
-    (hfresh : s.clients.any (fun c => c.id == id) = false) : SessInv v (newClient s id k t) := by
-  unfold newClient
-  refine ⟨⟨hi.1.1, ?_⟩, ?_⟩
-  · simp only [List.map_cons, List.nodup_cons]
-    refine ⟨?_, hi.1.2⟩
-    intro hmem
-    obtain ⟨d, hd, hid⟩ := List.mem_map.mp hmem
-    have := List.any_eq_false.mp hfresh d hd
-    simp [hid] at this
-  · intro c hc
-    simp only [List.mem_cons] at hc
-    rcases hc with rfl | hc
-    · exact ⟨by simp, fun x y hx hy => Or.inl (Rgn.mem_full hx hy)⟩
-    · exact hi.2 c hc
 
 theorem ptrEvent_inv {v : Variant} {s : Sess} {id x y b : Nat} (hi : SessInv v s) :
     SessInv v (ptrEvent s id x y b) := by
@@ -664,67 +734,219 @@ theorem setCursor_inv {v : Variant} {s : Sess} {c : Option Cursor} (hi : SessInv
         simp only [Bool.or_eq_false_iff] at hmod
         exact ⟨hmod.1.1, fun _ => ⟨hmod.1.2, hmod.2⟩⟩
 
-/-- SetEncodings again (repaired code): whichever way the cursor capability changes, every pixel
-whose expectation changes is marked modified -/
-theorem setEncodings_inv {v : Variant} {s : Sess} {id : Nat} {k : ClientKind} (hv : v.setencFixed = true)
-    (hi : SessInv v s) : SessInv v (setEncodings v s id k) := by
+/-- SetEncodings (repaired code), for one client: whichever way the cursor capability changes —
+and in whatever order the encodings are listed — every pixel whose expectation changes is marked
+modified -/
+theorem clientSetEncodings_inv {v : Variant} {scr : Screen} {c : Client} {l : List Enc}
+    (hv : v.setencFixed = true) (hs : scr.WF) (h : ClientInv v scr c) :
+    ClientInv v scr (clientSetEncodings v scr c l) := by
+  obtain ⟨hpsz, hpix⟩ := h
+  unfold clientSetEncodings
+  simp only [encFlags_closed, hv, Bool.true_and]
+  refine ⟨hpsz, fun x y hx hy => ?_⟩
+  simp only []
+  -- a pixel that is not modified afterwards was not modified before, and (when the box was marked)
+  -- does not lie under the cursor
+  have hplain : ∀ c' : Client, c'.curX = c.curX → c'.curY = c.curY →
+      (c'.shape = true ∨ (Rgn.ofRect scr.w scr.h (cursorBox scr c.curX c.curY)).mem scr.w x y = false) →
+      expectedPx v scr c' x y = scr.fb[y * scr.w + x]? := by
+    intro c' e1 e2 h
+    rcases h with h | h
+    · exact expectedPx_plain hs (Or.inl h)
+    · exact expectedPx_plain hs (Or.inr (Or.inr fun cur hcur => by
+        rw [e1, e2]; exact not_inBox_of_not_mem hcur hx hy h))
+  -- membership in the new modifiedRegion implies-or-is membership in m1
+  generalize hm1 : (if (hasShape l || c.shape && !hasShape l) = true then
+      Rgn.or scr.w scr.h c.modified (Rgn.ofRect scr.w scr.h (cursorBox scr c.curX c.curY)) else c.modified) = m1
+  have hsup : (if (!l.contains Enc.copyRect && c.copy.nonempty) = true then Rgn.or scr.w scr.h m1 c.copy else m1).mem scr.w x y = false →
+      m1.mem scr.w x y = false := by
+    intro h
+    split at h
+    · rw [Rgn.mem_or _ _ hx hy] at h
+      simp only [Bool.or_eq_false_iff] at h; exact h.1
+    · exact h
+  cases hnew : (if (!l.contains Enc.copyRect && c.copy.nonempty) = true then Rgn.or scr.w scr.h m1 c.copy else m1).mem scr.w x y with
+  | true => left; rfl
+  | false =>
+    right
+    have hm1f := hsup hnew
+    cases hmark : (hasShape l || c.shape && !hasShape l) with
+    | false =>
+      rw [hmark] at hm1; simp only [Bool.false_eq_true, if_false] at hm1
+      simp only [Bool.or_eq_false_iff, Bool.and_eq_false_iff, Bool.not_eq_false'] at hmark
+      have hsl : hasShape l = false := hmark.1
+      have hcs : c.shape = false := by rcases hmark.2 with h | h; exact h; rw [hsl] at h; simp at h
+      subst hm1
+      rcases hpix x y hx hy with h | h
+      · rw [hm1f] at h; simp at h
+      · rw [h]
+        congr 1
+        symm
+        exact expectedPx_congr rfl rfl rfl rfl rfl (SameLook.refl _ _ _ _) (by simp [hsl, hcs]) rfl rfl
+    | true =>
+      rw [hmark] at hm1; simp only [if_true] at hm1
+      subst hm1
+      rw [Rgn.mem_or _ _ hx hy] at hm1f
+      simp only [Bool.or_eq_false_iff] at hm1f
+      rcases hpix x y hx hy with h | h
+      · rw [hm1f.1] at h; simp at h
+      · rw [h, hplain c rfl rfl (Or.inr hm1f.2)]
+        congr 1
+        symm
+        apply hplain
+        · rfl
+        · rfl
+        · exact Or.inr hm1f.2
+
+theorem clientSetEncodings_nocopy {v : Variant} {scr : Screen} {c : Client} {l : List Enc} (h : NoCopy scr c) :
+    NoCopy scr (clientSetEncodings v scr c l) := by
+  intro x y hx hy
+  unfold clientSetEncodings
+  simp only []
+  split
+  · exact Rgn.mem_empty hx hy
+  · exact h x y hx hy
+
+theorem clientSetEncodings_id (v : Variant) (scr : Screen) (c : Client) (l : List Enc) :
+    (clientSetEncodings v scr c l).id = c.id := rfl
+
+theorem setEncodings_inv {v : Variant} {s : Sess} {id : Nat} {l : List Enc} (hv : v.setencFixed = true)
+    (hi : SessInv v s) : SessInv v (setEncodings v s id l) := by
   unfold setEncodings
   refine ⟨⟨hi.1.1, nodup_map_clients _ (by intro c; split <;> rfl) hi.1.2⟩, ?_⟩
   intro d' hd'
   obtain ⟨d, hd, rfl⟩ := List.mem_map.mp hd'
-  obtain ⟨hpsz, hpix⟩ := hi.2 d hd
-  by_cases hid : (d.id == id) = true
-  · simp only [hid, if_true]
-    refine ⟨hpsz, fun x y hx hy => ?_⟩
-    simp only [hv, Bool.true_and]
-    -- the two expectations, before and after
-    have hplain : ∀ c' : Client, c'.curX = d.curX → c'.curY = d.curY →
-        (c'.shape = true ∨ (Rgn.ofRect s.scr.w s.scr.h (cursorBox s.scr d.curX d.curY)).mem s.scr.w x y = false) →
-        expectedPx v s.scr c' x y = s.scr.fb[y * s.scr.w + x]? := by
-      intro c' e1 e2 h
-      rcases h with h | h
-      · exact expectedPx_plain hi.1.1 (Or.inl h)
-      · exact expectedPx_plain hi.1.1 (Or.inr (Or.inr fun cur hcur => by
-          rw [e1, e2]; exact not_inBox_of_not_mem hcur hx hy h))
-    cases hmark : ((k != ClientKind.raw) || d.shape) with
-    | false =>
-      -- raw -> raw: nothing about the picture changes
-      simp only [Bool.or_eq_false_iff] at hmark
-      simp only [hmark.1, Bool.false_eq_true, if_false]
-      rcases hpix x y hx hy with h | h
-      · exact Or.inl h
-      · right
-        rw [h]
-        congr 1
-        symm
-        exact expectedPx_congr rfl rfl rfl rfl rfl (SameLook.refl _ _ _ _) hmark.2.symm rfl rfl
-    | true =>
-      simp only [hmark, if_true]
-      rw [Rgn.mem_or _ _ hx hy]
-      cases h1 : d.modified.mem s.scr.w x y with
-      | true => left; rfl
-      | false =>
-        cases h2 : (Rgn.ofRect s.scr.w s.scr.h (cursorBox s.scr d.curX d.curY)).mem s.scr.w x y with
-        | true => left; rfl
-        | false =>
-          right
-          rcases hpix x y hx hy with h | h
-          · rw [h1] at h; simp at h
-          · rw [h, hplain d rfl rfl (Or.inr h2)]
-            congr 1
-            symm
-            apply hplain
-            · rfl
-            · rfl
-            · exact Or.inr h2
-  · have : (d.id == id) = false := by simpa using hid
-    simp only [this, Bool.false_eq_true, if_false]
-    exact ⟨hpsz, hpix⟩
+  split
+  · exact clientSetEncodings_inv hv hi.1.1 (hi.2 d hd)
+  · exact hi.2 d hd
+
+theorem newClient_inv {v : Variant} {s : Sess} {id : Nat} {l : List Enc} {t : Option (Format × Nat)}
+    (hv : v.setencFixed = true) (hi : SessInv v s)
+    (hfresh : s.clients.any (fun c => c.id == id) = false) : SessInv v (newClient v s id l t) := by
+  unfold newClient
+  refine ⟨⟨hi.1.1, ?_⟩, ?_⟩
+  · simp only [List.map_cons, List.nodup_cons, clientSetEncodings_id]
+    refine ⟨?_, hi.1.2⟩
+    intro hmem
+    obtain ⟨d, hd, hid⟩ := List.mem_map.mp hmem
+    have := List.any_eq_false.mp hfresh d hd
+    simp [hid] at this
+  · intro c hc
+    simp only [List.mem_cons] at hc
+    rcases hc with rfl | hc
+    · exact clientSetEncodings_inv hv hi.1.1 ⟨by simp, fun x y hx hy => Or.inl (Rgn.mem_full hx hy)⟩
+    · exact hi.2 c hc
 
 /-! ### whole histories -/
 
+theorem NoCopy.of_eq {scr scr' : Screen} {d d' : Client} (h : NoCopy scr d) (hw : scr'.w = scr.w)
+    (hh : scr'.h = scr.h) (hc : d'.copy = d.copy) : NoCopy scr' d' := by
+  intro x y hx hy
+  rw [hw] at hx ⊢; rw [hh] at hy; rw [hc]
+  exact h x y hx hy
+
+theorem steps_nocopy {v : Variant} {a b : Sess} (h : Steps v a b) (hw : SessWF a) (hn : SessNoCopy a) :
+    SessNoCopy b := by
+  induction h with
+  | refl _ => exact hn
+  | head c o hc hsu _ ih => exact ih (sendUpdate_wf hw hsu).1 (sendUpdate_nocopy hw.1 hn hc hsu)
+
+/-- every operation other than a scheduled copy keeps "no copy scheduled" -/
+theorem applyOp_nocopy {v : Variant} {s s' : Sess} {op : Op} (hs : SessWF s) (hn : SessNoCopy s)
+    (h : applyOp v s op = some s') : SessNoCopy s' := by
+  cases op with
+  | client id l t =>
+    simp only [applyOp] at h
+    split at h
+    · simp at h; subst h; exact hn
+    · simp at h; subst h
+      intro c hc
+      simp only [newClient, List.mem_cons] at hc
+      rcases hc with rfl | hc
+      · exact clientSetEncodings_nocopy (fun x y hx hy => Rgn.mem_empty hx hy)
+      · exact hn c hc
+  | setenc id l =>
+    simp only [applyOp] at h
+    simp at h; subst h
+    intro c hc
+    obtain ⟨d, hd, rfl⟩ := List.mem_map.mp hc
+    split
+    · exact clientSetEncodings_nocopy (hn d hd)
+    · exact hn d hd
+  | ptr id x y b =>
+    simp only [applyOp] at h
+    split at h <;> (simp at h; subst h)
+    · have hgo : SessNoCopy (ptrEvent.go s id x y b) := by
+        unfold ptrEvent.go
+        simp only []
+        split
+        · intro c hc
+          obtain ⟨d, hd, rfl⟩ := List.mem_map.mp hc
+          refine (hn d hd).of_eq rfl rfl ?_
+          split <;> split <;> rfl
+        · exact hn
+      unfold ptrEvent
+      split
+      · split
+        · exact hn
+        · exact hgo
+      · exact hgo
+    · exact hn
+  | req id incr r =>
+    simp only [applyOp] at h
+    split at h <;> (simp at h; subst h)
+    · intro c hc
+      simp only [request] at hc
+      obtain ⟨d, hd, rfl⟩ := List.mem_map.mp hc
+      split
+      · intro x y hx hy
+        show (if incr then d.copy else Rgn.sub s.scr.w s.scr.h d.copy _).mem s.scr.w x y = false
+        split
+        · exact hn d hd x y hx hy
+        · have hx' : x < s.scr.w := hx
+          have hy' : y < s.scr.h := hy
+          rw [Rgn.mem_sub _ _ hx' hy', hn d hd x y hx' hy']; rfl
+      · exact hn d hd
+    · exact hn
+  | draw r val =>
+    simp only [applyOp] at h
+    split at h
+    · unfold draw at h
+      obtain ⟨fb, _, e⟩ := Option.map_eq_some_iff.mp h
+      subst e
+      intro c hc
+      simp only [markModified] at hc
+      obtain ⟨d, hd, rfl⟩ := List.mem_map.mp hc
+      exact (hn d hd).of_eq rfl rfl rfl
+    · simp at h; subst h; exact hn
+  | cursor c =>
+    have key : ∀ c, SessNoCopy (setCursor s c) := by
+      intro c d' hd'
+      simp only [setCursor, redrawSoft, List.map_map] at hd'
+      obtain ⟨d, hd, rfl⟩ := List.mem_map.mp hd'
+      refine (hn d hd).of_eq rfl rfl ?_
+      simp only [Function.comp]
+      cases hsh : d.shape <;> simp [hsh]
+    simp only [applyOp] at h
+    cases c with
+    | none => simp at h; subst h; exact key none
+    | some c =>
+      simp only [] at h
+      split at h
+      · simp at h; subst h; exact key (some c)
+      · simp at h; subst h; exact hn
+  | failnext id =>
+    simp only [applyOp] at h
+    simp at h; subst h
+    exact fun c hc => (hn c hc).of_eq rfl rfl rfl
+  | pump =>
+    simp only [applyOp] at h
+    obtain ⟨⟨s1, obs⟩, hp, e⟩ := Option.map_eq_some_iff.mp h
+    simp only [] at e; subst e
+    exact steps_nocopy (pump_steps hp) hs hn
+
 theorem applyOp_inv {v : Variant} {s s' : Sess} {op : Op} (hv : v.setencFixed = true) (hi : SessInv v s)
-    (h : applyOp v s op = some s') : SessInv v s' := by
+    (hn : SessNoCopy s) (h : applyOp v s op = some s') : SessInv v s' := by
   cases op with
   | client id k t =>
     simp only [applyOp] at h
@@ -732,7 +954,7 @@ theorem applyOp_inv {v : Variant} {s s' : Sess} {op : Op} (hv : v.setencFixed = 
     · simp at h; subst h; exact hi
     · rename_i hf
       simp at h; subst h
-      exact newClient_inv hi (by simpa using hf)
+      exact newClient_inv hv hi (by simpa using hf)
   | setenc id k =>
     simp only [applyOp] at h
     simp at h; subst h
@@ -771,16 +993,16 @@ theorem applyOp_inv {v : Variant} {s s' : Sess} {op : Op} (hv : v.setencFixed = 
     simp only [applyOp] at h
     obtain ⟨⟨s1, obs⟩, hp, e⟩ := Option.map_eq_some_iff.mp h
     simp only [] at e; subst e
-    exact pump_inv hi hp
+    exact (pump_inv hi hn hp).1
 
 theorem runOps_inv {v : Variant} {s s' : Sess} {ops : List Op} (hv : v.setencFixed = true) (hi : SessInv v s)
-    (h : runOps v s ops = some s') : SessInv v s' := by
+    (hn : SessNoCopy s) (h : runOps v s ops = some s') : SessInv v s' ∧ SessNoCopy s' := by
   induction ops generalizing s with
-  | nil => simp [runOps] at h; subst h; exact hi
+  | nil => simp [runOps] at h; subst h; exact ⟨hi, hn⟩
   | cons op ops ih =>
     simp only [runOps] at h
     obtain ⟨s1, h1, h2⟩ := Option.bind_eq_some_iff.mp h
-    exact ih (applyOp_inv hv hi h1) h2
+    exact ih (applyOp_inv hv hi hn h1) (applyOp_nocopy hi.1 hn h1) h2
 
 theorem sessInv_init {v : Variant} {s : Sess} (hs : s.scr.WF) (hc : s.clients = []) : SessInv v s :=
   ⟨⟨hs, by rw [hc]; exact List.nodup_nil⟩, by rw [hc]; intro c h; simp at h⟩
